@@ -204,7 +204,7 @@ def exhaustive(kind, alphabet, maxlen):
 
 
 def gen(r, tier):
-    n = {"quick": 4500, "search": 20000, "thorough": 250000}[tier]
+    n = {"quick": 4500, "search": 20000, "thorough": 100000}[tier]
     cases = []
     deep = tier != "quick"
     # bounded-exhaustive part: every history over a small alphabet
